@@ -67,6 +67,12 @@ pub fn run(mut cx: Ctx) -> ! {
                             let r = std::panic::catch_unwind(std::panic::AssertUnwindSafe(|| directory_handler(request(&full), state.clone(), root_s, "/s*", 0)));
                             judge(&mut s, name, mask, &full, &want, r);
                         }
+                        // a route pattern with a literal after its wildcard (`/s*t`): only the part before the `*` is
+                        // the prefix to strip
+                        if full.ends_with('t') {
+                            let r = std::panic::catch_unwind(std::panic::AssertUnwindSafe(|| directory_handler(request(&full), st_off.clone(), root_s, "/s*t", 0)));
+                            judge(&mut s, "directory route (pattern with a suffix)", mask, &full, &want, r);
+                        }
                     }
                 }
             }
